@@ -2,6 +2,7 @@ import IbicusModel.Props.C10
 import IbicusModel.Lemmas.GenDebiasers
 import IbicusModel.Lemmas.GenIsimipFreq
 import IbicusModel.Lemmas.GenIsimipVars
+import IbicusModel.Lemmas.GenIsimipSteps
 -- property theorems
 #print axioms Props.C10.step5_bounded_in_range
 #print axioms Props.C10.step5_in_range
@@ -73,3 +74,17 @@ import IbicusModel.Lemmas.GenIsimipVars
 #print axioms Lemmas.GenIsimipVars.bounded_variables_complete
 #print axioms Lemmas.C10.run_result
 #print axioms Lemmas.C10.ssrThreshold_subsample
+-- tier A (ISIMIP steps): per-element / list-level definitions regenerated from `_isimip.py` = model
+#print axioms Lemmas.GenIsimipSteps.transfer_trend_additive
+#print axioms Lemmas.GenIsimipSteps.transfer_trend_multiplicative
+#print axioms Lemmas.GenIsimipSteps.transfer_trend_mixed
+#print axioms Lemmas.GenIsimipSteps.transfer_trend_bounded
+#print axioms Lemmas.GenIsimipSteps.transfer_trend_eq
+#print axioms Lemmas.GenIsimipSteps.transfer_trend_error
+#print axioms Lemmas.GenIsimipSteps.step7_eq
+#print axioms Lemmas.GenIsimipSteps.get_mask_for_values_to_impute_eq
+#print axioms Lemmas.GenIsimipSteps.get_mask_for_entries_to_set_to_lower_bound_eq
+#print axioms Lemmas.GenIsimipSteps.get_mask_for_entries_to_set_to_upper_bound_eq
+#print axioms Lemmas.GenIsimipSteps.randomize_lower_eq
+#print axioms Lemmas.GenIsimipSteps.randomize_upper_eq
+#print axioms Lemmas.GenIsimipSteps.remove_trend_eq
